@@ -10,6 +10,8 @@ mod c11;
 mod c12;
 mod svalue;
 mod c13;
+mod c14;
+mod c15;
 mod schema;
 mod c05;
 mod c06;
@@ -66,6 +68,8 @@ fn main() {
         "c11" => c11::run(&args),
         "c12" => c12::run(&args),
         "c13" => c13::run(&args),
+        "c14" => c14::run(&args),
+        "c15" => c15::run(&args),
         "c05" => c05::run(&args),
         "c06" => c06::run(&args),
         "c06b64" => c06::run_b64(&args),
